@@ -25,7 +25,7 @@ def specs():
     for a, b in itertools.product(els[:: max(1, len(els) // 25)], repeat=2):
         out.append([a, b])
     rnd = random.Random(2)
-    for _ in range(600):
+    for _ in range(3000 if os.environ.get('VERIF_TIER') == 'thorough' else 600):
         spec = []
         for _ in range(rnd.randint(1, 4)):
             if rnd.random() < 0.4:
